@@ -7,21 +7,23 @@ Full statement (DESIGN §8 C14): for every synchronisation-only program `p` of t
 is a deadlock state of the LTS (`deadlock_report_sound`); hence a program without reachable deadlock never gets stuck
 (`no_reachable_deadlock_never_reported`).
 
-What is PROVED here (`_partial`), for all programs, all histories, no bound on actors / operations / objects:
+What is PROVED here, for all programs, all histories, no bound on actors / operations / objects:
   * object kinds covered: MUTEXES (lock, try_lock, unlock; non-recursive), SEMAPHORES (acquire, release) and BARRIERS
     (wait; sizes in [1, 2^32)), freely mixed in one program (`SyncOnly` = static actors over these six operations).
     Condition variables and mailboxes are executed by the same machine (`ostep`) and tied to the LTS by the
     correspondence check only (the driver re-checks `execPath o.s path = some o'.s` at every step of every observed
     history).
-  * excluding hypothesis `NoRelock`: no actor calls `lock()` on a mutex it already owns.  The full-strength statement
-    is FALSE on the current code: `MutexAcquisitionImpl::wait_for` tests `mutex_->get_owner() == issuer_` instead of
-    `granted_`, so in a normal run the second `lock()` returns at once, whereas under the checker MUTEX_WAIT is enabled
-    only when the acquisition is granted (`MutexAcquisitionObserver::is_enabled`): the state reached by the run is not
-    reachable in the LTS (`single_simcall_is_atomic_split_counterexample`, finding `mutex-relock-by-owner-returns`).
-    This hypothesis is the ONLY reason for the `_partial` suffix on programs of the covered kinds.
+  * NO hypothesis on the history.  Before the repair of finding `mutex-relock-by-owner-returns`
+    (props/C14/fix_series/01-mutex-relock.patch) the theorems needed `NoRelock` (no actor calls `lock()` on a mutex it
+    already owns): `MutexAcquisitionImpl::wait_for` tested `mutex_->get_owner() == issuer_` instead of `granted_`, so in
+    a normal run the second `lock()` returned at once, whereas under the checker MUTEX_WAIT is enabled only when the
+    acquisition is granted (`MutexAcquisitionObserver::is_enabled`).  `wait_for` now tests `granted_`
+    (`Sync.Mutex.waitFor`), the second `lock()` blocks, and the statements hold at full strength.  The old behaviour is
+    kept as a regression statement about the pre-repair machine `orunPre` of C14/PreFix.lean
+    (`single_simcall_is_atomic_split_prefix_counterexample`, `prefix_machine_agrees_without_relock`).
 -/
 import SgVerif.C14.Main
-import SgVerif.C14.Fixed
+import SgVerif.C14.PreFix
 namespace SgVerif.C14
 open SgVerif.McRef
 
@@ -36,54 +38,72 @@ there], `Semaphore::release` = `SEM_UNLOCK` [+ the `SEM_WAIT` of the head waiter
 `BARRIER_ASYNC_LOCK`, and when it completes the group, the `BARRIER_WAIT` of every released waiter in queue order then
 the caller's own; every one of these transitions being enabled; and the state correspondence `R` and the invariant are
 preserved.  (Mutex, semaphore, barrier operations; any other pending simcall contradicts `Inv`.) -/
-theorem single_simcall_is_atomic_split_partial {o o' : OState} {i : Nat} {path : Path} (hR : R o) (hI : Inv o)
-    (hok : stepOK o i) (h : ostep o i = some (o', path)) :
+theorem single_simcall_is_atomic_split {o o' : OState} {i : Nat} {path : Path} (hR : R o) (hI : Inv o)
+    (h : ostep o i = some (o', path)) :
     execPath o.s path = some o'.s ∧ R o' ∧ Inv o' :=
-  ostep_sound hR hI hok h
+  ostep_sound hR hI h
 
 /-- Every history accepted by the one-simcall machine maps to a path of the reference LTS: the final state of a
 normal run is in the reachable set of the LTS. -/
-theorem engine_run_reachable_partial (p : Program) (hp : SyncOnly p) (h : List Nat) {o : OState} {path : Path}
-    (hn : NoRelock (initO p) h) (hr : orun (initO p) h = some (o, path)) :
+theorem engine_run_reachable (p : Program) (hp : SyncOnly p) (h : List Nat) {o : OState} {path : Path}
+    (hr : orun (initO p) h = some (o, path)) :
     execPath (initState p) path = some o.s ∧ Reachable p o.s := by
   obtain ⟨hR, hI⟩ := init_sound p hp
-  obtain ⟨e, _, _⟩ := orun_sound h hR hI hn hr
+  obtain ⟨e, _, _⟩ := orun_sound h hR hI hr
   exact ⟨e, path, e⟩
 
 /-- If the one-simcall world is stuck (every live actor blocked, nothing enabled: what `EngineImpl::run` reports as a
 deadlock), the corresponding LTS state is a deadlock state (no transition enabled, some actor not terminated) — and it
 is reachable. -/
-theorem deadlock_report_sound_partial (p : Program) (hp : SyncOnly p) (h : List Nat) {o : OState} {path : Path}
-    (hn : NoRelock (initO p) h) (hr : orun (initO p) h = some (o, path)) (hs : ostuck o = true) :
+theorem deadlock_report_sound (p : Program) (hp : SyncOnly p) (h : List Nat) {o : OState} {path : Path}
+    (hr : orun (initO p) h = some (o, path)) (hs : ostuck o = true) :
     isDeadlock o.s = true ∧ Reachable p o.s := by
   obtain ⟨hR, hI⟩ := init_sound p hp
-  obtain ⟨e, _, hI'⟩ := orun_sound h hR hI hn hr
+  obtain ⟨e, _, hI'⟩ := orun_sound h hR hI hr
   exact ⟨stuck_is_deadlock hI' hs, path, e⟩
 
 /-- A program with no reachable deadlock never reports one. -/
-theorem no_reachable_deadlock_never_reported_partial (p : Program) (hp : SyncOnly p)
+theorem no_reachable_deadlock_never_reported (p : Program) (hp : SyncOnly p)
     (hnd : ∀ s, Reachable p s → isDeadlock s = false) (h : List Nat) {o : OState} {path : Path}
-    (hn : NoRelock (initO p) h) (hr : orun (initO p) h = some (o, path)) : ostuck o = false := by
+    (hr : orun (initO p) h = some (o, path)) : ostuck o = false := by
   cases hs : ostuck o with
   | false => rfl
   | true =>
-    obtain ⟨hd, hreach⟩ := deadlock_report_sound_partial p hp h hn hr hs
+    obtain ⟨hd, hreach⟩ := deadlock_report_sound p hp h hr hs
     rw [hnd o.s hreach] at hd
     cases hd
 
-/-! ### the excluded class is a real counterexample -/
+/-! ### the formerly excluded class: re-lock of a mutex by its owner -/
 
 /-- `H m=1 ; A T0 L0`: try_lock succeeds, then the owner locks again. -/
 def relockProg : Program := { nmutex := 1, statics := [[.trylock 0, .lock 0]] }
 
-/-- The one-simcall machine (the real run) lets the second `lock()` return — the actor terminates with
-observation `[1]` — but the split path it stands for is NOT a path of the reference LTS (its MUTEX_WAIT is never
-enabled: the reference deadlocks).  So `single_simcall_is_atomic_split` without `NoRelock` is false. -/
-theorem single_simcall_is_atomic_split_counterexample :
+example : SyncOnly relockProg := by
+  refine ⟨rfl, ?_⟩
+  decide
+
+/-- The witness of the repaired finding on the current machine: the second `lock()` blocks, the run is stuck, its split
+path IS a path of the LTS and ends in a deadlock state (what simgrid-mc always reported for this program). -/
+theorem relock_blocks_and_is_a_reference_deadlock :
     (orun (initO relockProg) [0, 0]).map
+      (fun r => (r.1.s.actors.map (·.obs), [ostuck r.1, isDeadlock r.1.s, (execPath (initState relockProg) r.2).isSome], r.2))
+    = some ([[1]], [true, true, true], [(0, 0), (0, 0)]) := by decide
+
+/-- REGRESSION statement about the code before the repair (`orunPre`, C14/PreFix.lean: owner test in `wait_for`): that
+machine (= the real run of the old code) let the second `lock()` return — the actor terminated with observation `[1]` —
+but the split path it stands for is NOT a path of the reference LTS (its MUTEX_WAIT is never enabled: the reference
+deadlocks).  So on the old code `single_simcall_is_atomic_split` was false without the hypothesis `NoRelock`. -/
+theorem single_simcall_is_atomic_split_prefix_counterexample :
+    (orunPre (initO relockProg) [0, 0]).map
         (fun r => (r.1.s.actors.map (·.obs), allDone r.1.s, r.2, (execPath (initState relockProg) r.2).isSome))
       = some ([[1]], true, [(0, 0), (0, 0), (0, 0)], false) := by
   decide
+
+/-- the repair touches nothing else: on a step that is not a re-lock by the owner the old and the current machine do
+the same -/
+theorem prefix_machine_agrees_without_relock {o : OState} {i : Nat} (hI : Inv o) (hok : stepOK o i) :
+    ostepPre o i = ostep o i :=
+  ostepPre_eq_ostep hI hok
 
 /-! ### non-vacuity -/
 
@@ -95,7 +115,7 @@ example : SyncOnly abba := by
   refine ⟨rfl, ?_⟩
   decide
 
-/-- the history of the real run (round-robin) is accepted, satisfies `NoRelock`, and ends stuck: the theorems apply
+/-- the history of the real run (round-robin) is accepted and ends stuck: the theorems apply
 with a non-trivial conclusion (a reachable deadlock of the LTS) -/
 example : (orun (initO abba) [0, 1, 0, 1]).map (fun r => (ostuck r.1, isDeadlock r.1.s, r.2))
     = some (true, true, [(0, 0), (0, 0), (1, 0), (1, 0), (0, 0), (1, 0)]) := by decide
@@ -131,59 +151,8 @@ example : (orun (initO barProg) [0, 1, 1, 0]).map (fun r => (ostuck r.1, allDone
 example : (orun (initO barStuck) [0, 1]).map (fun r => (ostuck r.1, isDeadlock r.1.s, r.2))
     = some (true, true, [(0, 0), (1, 0)]) := by decide
 
-/-! ### with the proposed fix (`wait_for` tests `granted_`): the full-strength statements, no `NoRelock`
-
-`ostepFixed` / `orunFixed` (C14/Fixed.lean) = the same machine with `Sync.Mutex.lockFixed` (the code after
-props/C14/fix_series/01-mutex-relock.patch) for `Mutex::lock`; it IS the current machine on every step that is not a
-re-lock by the owner (`fixed_machine_agrees_without_relock`).  These theorems speak about the code as it would be after
-the patch — not about the current code, for which the `_partial` ones above and the counterexample hold. -/
-
-/-- fixed code: one simcall = the atomic composition of its split transitions, for EVERY step (a re-lock by the owner
-included: MUTEX_ASYNC_LOCK queues the caller behind itself and its MUTEX_WAIT is not enabled) -/
-theorem single_simcall_is_atomic_split_fixed {o o' : OState} {i : Nat} {path : Path} (hR : R o) (hI : Inv o)
-    (h : ostepFixed o i = some (o', path)) : execPath o.s path = some o'.s ∧ R o' ∧ Inv o' :=
-  ostepFixed_sound hR hI h
-
-/-- fixed code: every accepted history maps to a path of the reference LTS — no hypothesis on the history -/
-theorem engine_run_reachable_fixed (p : Program) (hp : SyncOnly p) (h : List Nat) {o : OState} {path : Path}
-    (hr : orunFixed (initO p) h = some (o, path)) :
-    execPath (initState p) path = some o.s ∧ Reachable p o.s := by
-  obtain ⟨hR, hI⟩ := init_sound p hp
-  obtain ⟨e, _, _⟩ := orunFixed_sound h hR hI hr
-  exact ⟨e, path, e⟩
-
-/-- fixed code: a stuck world is a reachable deadlock state of the LTS -/
-theorem deadlock_report_sound_fixed (p : Program) (hp : SyncOnly p) (h : List Nat) {o : OState} {path : Path}
-    (hr : orunFixed (initO p) h = some (o, path)) (hs : ostuck o = true) :
-    isDeadlock o.s = true ∧ Reachable p o.s := by
-  obtain ⟨hR, hI⟩ := init_sound p hp
-  obtain ⟨e, _, hI'⟩ := orunFixed_sound h hR hI hr
-  exact ⟨stuck_is_deadlock hI' hs, path, e⟩
-
-/-- fixed code: a program with no reachable deadlock never gets stuck -/
-theorem no_reachable_deadlock_never_reported_fixed (p : Program) (hp : SyncOnly p)
-    (hnd : ∀ s, Reachable p s → isDeadlock s = false) (h : List Nat) {o : OState} {path : Path}
-    (hr : orunFixed (initO p) h = some (o, path)) : ostuck o = false := by
-  cases hs : ostuck o with
-  | false => rfl
-  | true =>
-    obtain ⟨hd, hreach⟩ := deadlock_report_sound_fixed p hp h hr hs
-    rw [hnd o.s hreach] at hd
-    cases hd
-
-/-- the fix touches nothing else: on a step that is not a re-lock by the owner both machines do the same -/
-theorem fixed_machine_agrees_without_relock {o : OState} {i : Nat} (hI : Inv o) (hok : stepOK o i) :
-    ostepFixed o i = ostep o i :=
-  ostepFixed_eq_ostep hI hok
-
-/-- the witness of the finding, on the fixed machine: the second `lock()` blocks, the run is stuck, its split path IS a
-path of the LTS and ends in a deadlock state (compare `single_simcall_is_atomic_split_counterexample`) -/
-example : (orunFixed (initO relockProg) [0, 0]).map
-      (fun r => (r.1.s.actors.map (·.obs), [ostuck r.1, isDeadlock r.1.s, (execPath (initState relockProg) r.2).isSome], r.2))
-    = some ([[1]], [true, true, true], [(0, 0), (0, 0)]) := by decide
-
-/-- … and an ordinary history (hand-off) is executed identically by the fixed machine -/
-example : (orunFixed (initO abba) [0, 0, 1, 0]).map (fun r => (ostuck r.1, r.2))
+/-- … e.g. an ordinary history (hand-off) was executed identically by the old machine -/
+example : (orunPre (initO abba) [0, 0, 1, 0]).map (fun r => (ostuck r.1, r.2))
     = (orun (initO abba) [0, 0, 1, 0]).map (fun r => (ostuck r.1, r.2)) := by decide
 
 end SgVerif.C14
